@@ -152,6 +152,14 @@ pub trait Space<VM: VMBinding>: 'static + SFT + Sync + Downcast {
             .metadata
             .assert_metadata_ranges_in_reserved_range(res.start, bytes, self.get_name());
 
+        #[cfg(mmtk_verif)]
+        crate::util::verif::rt::event(
+            crate::util::verif::rt::ev::PAGES_GRANT,
+            self.common().descriptor.get_index(),
+            res.start.as_usize(),
+            res.pages,
+        );
+
         let mmap = || {
             // Mmap the pages and the side metadata, and handle error. In case of any error,
             // we will either call back to the VM for OOM, or simply panic.
